@@ -273,6 +273,36 @@ def rule_R10_mut_self(text: str, counts: dict) -> str:
     return sig2 + "".join(out)
 
 
+def rule_R11_enumerate(text: str, counts: dict) -> str:
+    """R11: `for (I, X) in E.iter().enumerate() {` -> `for I in 0..E.len() { let X = &E[I];` where E is a
+    plain place expression (identifiers, `self`, `.`).  For a Vec or slice E the two loops visit the same
+    (index, &element) pairs in the same order; Verus has no spec for the iterator adapters."""
+    while True:
+        toks = rustlex.lex(text)
+        sig = [i for i, t in enumerate(toks) if t.kind not in ("ws", "comment", "doc")]
+        hit = None
+        for p, i in enumerate(sig):
+            if toks[i].kind == "ident" and toks[i].text == "for":
+                tx = [toks[j].text for j in sig[p:p + 7]]
+                if len(tx) == 7 and tx[1] == "(" and tx[3] == "," and tx[5] == ")" and tx[6] == "in" and toks[sig[p + 2]].kind == "ident" and toks[sig[p + 4]].kind == "ident":
+                    q = p + 7
+                    expr = []
+                    while q < len(sig) and (toks[sig[q]].kind == "ident" or toks[sig[q]].text == "."):
+                        expr.append(toks[sig[q]].text)
+                        q += 1
+                    # expr ends with `. iter` ; then `( ) . enumerate ( ) {`
+                    tail = [toks[j].text for j in sig[q:q + 7]]
+                    if len(expr) >= 3 and expr[-2:] == [".", "iter"] and tail == ["(", ")", ".", "enumerate", "(", ")", "{"]:
+                        hit = (toks[i].start, toks[sig[q + 6]].end, tx[2], tx[4], "".join(expr[:-2]))
+                        break
+        if not hit:
+            return text
+        a, b, ivar, xvar, e = hit
+        nl = text[a:b].count("\n")
+        text = text[:a] + f"for {ivar} in 0..{e}.len() {{ let {xvar} = &{e}[{ivar}];" + "\n" * nl + text[b:]
+        counts["R11"] = counts.get("R11", 0) + 1
+
+
 def keep_attr(a: str) -> bool:
     return False
 
@@ -426,6 +456,7 @@ class UnitBuilder:
         self.origin: list[LineOrigin] = []
         self.fn_lines: list[tuple[int, int, str]] = []  # (first, last, item path)
         self.lost: list[str] = []
+        self.force_external: dict[str, str] = {}   # item path -> reason (outside the Verus subset)
 
     # -- emit helpers
     def emit_gen(self, text: str, item: str = ""):
@@ -478,6 +509,14 @@ class UnitBuilder:
             for ispec, it, src in groups[key]:
                 mark = (len(self.lines), len(self.origin), len(self.fn_lines), len(self.items), len(canaries))
                 try:
+                    if ispec.path in self.force_external and it.kind == "fn" and "external_body" not in ispec.opts:
+                        # second pass: Verus rejected this function's text (construct outside its subset or
+                        # a type error after a code change).  Keep the rest of the unit decidable: emit it
+                        # with its contract assumed and report it undecided.
+                        self.lost.append(f"{ispec.path}: {self.force_external[ispec.path]}")
+                        ispec2 = ItemSpec(ispec.file, ispec.path, ispec.opts + ["external_body", "drop_body"], {k: v for k, v in ispec.sections.items() if k in ("requires", "ensures")}, ispec.line)
+                        self._emit_item(ispec2, it, src, canaries, key)
+                        continue
                     self._emit_item(ispec, it, src, canaries, key)
                 except AnchorLost as e:
                     if it.kind != "fn":
@@ -514,6 +553,7 @@ class UnitBuilder:
         if it.kind == "fn":
             text = rule_R7_format(text, self.counts)
             text = rule_R10_mut_self(text, self.counts)
+            text = rule_R11_enumerate(text, self.counts)
         for rule, frm, to in self.spec.rewrites:
             text = rule_R3_token_replace(text, frm, to, rule, self.counts)
         # R4 on the full item text (attributes before decl were already excluded by using it.decl)
@@ -524,6 +564,13 @@ class UnitBuilder:
         derive = re.search(r"#\[derive\(([^)]*)\)\]", pre_attr)
         if derive:
             kept = [d.strip() for d in derive.group(1).split(",") if d.strip() in ("Clone", "Copy")]
+            if "derive_eq" in ispec.opts:
+                # the real item derives PartialEq + Eq (std's structural equality): keep them and add
+                # Verus's `Structural` marker so that exec `==` means spec equality
+                have = [d.strip() for d in derive.group(1).split(",")]
+                if "PartialEq" not in have or "Eq" not in have:
+                    raise AnchorLost(f"{ispec.path}: derive_eq requested but the item no longer derives PartialEq, Eq")
+                kept = kept + ["PartialEq", "Eq", "Structural"]
             if kept and "derive_none" not in ispec.opts:
                 text2 = f"#[derive({', '.join(kept)})] " + text2
         # stripping keeps line structure? strip_docs removes doc tokens but leaves the newlines after them
@@ -708,10 +755,11 @@ def scan_assumptions(text: str) -> list[str]:
     return out
 
 
-def run_unit(vc_path: str, repo: str, workdir: str, rlimit: int | None = None, threads: int = 8) -> UnitResult:
+def run_unit(vc_path: str, repo: str, workdir: str, rlimit: int | None = None, threads: int = 8, _force: dict | None = None) -> UnitResult:
     t0 = time.time()
     spec = parse_vc(vc_path)
     b = UnitBuilder(spec, repo)
+    b.force_external = dict(_force or {})
     try:
         text = b.build()
     except AnchorLost as e:
@@ -767,6 +815,7 @@ def run_unit(vc_path: str, repo: str, workdir: str, rlimit: int | None = None, t
 
     failures: list[Failure] = []
     hard_errors: list[str] = []
+    hard_owners: list[tuple[str, str]] = []
     rlimit_hit: list[str] = []
     for d in diags:
         if d.get("level") != "error":
@@ -783,6 +832,7 @@ def run_unit(vc_path: str, repo: str, workdir: str, rlimit: int | None = None, t
             continue
         if not is_verif:
             hard_errors.append((msg + " @ " + (f"line {prim['line_start']}: {prim['text'][0]['text'].strip() if prim and prim.get('text') else ''}" if prim else ""))[:400])
+            hard_owners.append((owner(prim["line_start"]).split("/")[0] if prim else "?", msg[:160]))
             continue
         clause = clause_ref = repo_ref = ""
         fn = "?"
@@ -802,6 +852,14 @@ def run_unit(vc_path: str, repo: str, workdir: str, rlimit: int | None = None, t
         pref = [o for o in owners if o not in ("prelude", "postlude")]
         fn = (pref or owners or ["?"])[-1] if not prim else (owner(prim["line_start"]) if owner(prim["line_start"]) not in ("prelude", "postlude", "?") else (pref or owners or ["?"])[0])
         failures.append(Failure(fn.split("/")[0], msg, clause, clause_ref, repo_ref, d.get("rendered", "")[:3000]))
+
+    if hard_errors:
+        # isolate: if every hard error sits inside an extracted, verified (non-external) repo function,
+        # re-run with those functions assumed so the other functions of the unit are still decided
+        verifiable = {bi.spec.path for bi in b.items if bi.kind == "fn" and "external_body" not in bi.spec.opts}
+        new_force = {o: "outside the Verus subset / type error: " + m for o, m in hard_owners if o in verifiable and o not in b.force_external}
+        if new_force and all(o in verifiable for o, _ in hard_owners) and len(b.force_external) + len(new_force) <= 4:
+            return run_unit(vc_path, repo, workdir, rlimit, threads, {**b.force_external, **new_force})
 
     canary_names = {bi.canary for bi in b.items if bi.canary}
     # also hand-written canaries in prelude/postlude: any fn named canary__*
